@@ -288,10 +288,47 @@ def _reference():
     return LOCAL_NAMES
 
 
+def canonicalise_fields(ctx):
+    """A field of the visitor struct the reference does not know, declared at the position of a reference field that is gone (same
+    number of fields), is that field renamed (its type may have changed too): it is presented under the reference name, so the
+    state discipline on record for it is the one that is checked."""
+    ref = _reference().get("fields") or {}
+    done = {}
+    for sname, want in ref.items():
+        have = [f["name"] for f in (ctx.facts.struct_fields(sname) or [])]
+        if len(have) != len(want) or have == want:
+            continue
+        m = {h: w for h, w in zip(have, want) if h != w and h not in want and w not in have}
+        if m:
+            ctx.facts.rename_fields(sname, m)
+            done.update(m)
+    # a field whose type is a local enum of the shape of Option (one variant without payload, one with a single positional payload)
+    # is read as an Option: the rules know the empty / filled states of a cell as None / Some
+    optioned = {}
+    enums = [it for it in ctx.facts.items if it["crate"] == VISITOR_CRATE and it.get("kind") == "enum"]
+    all_variants = [v["name"] for it in enums for v in it["variants"]]
+    for sname in ref:
+        for f in ctx.facts.struct_fields(sname) or []:
+            for it in enums:
+                if it["path"] == f["ty"] and len(it["variants"]) == 2:
+                    vs = sorted(it["variants"], key=lambda v: len(v["fields"]))
+                    if len(vs[0]["fields"]) == 0 and len(vs[1]["fields"]) == 1 and vs[1]["fields"][0]["name"] == "0" \
+                            and all(all_variants.count(v["name"]) == 1 for v in vs) and {vs[0]["name"], vs[1]["name"]} != {"None", "Some"}:
+                        m = {vs[0]["name"]: "None", vs[1]["name"]: "Some"}
+                        optioned[it["path"]] = m
+                        ctx.facts.rename_variants(it["path"], m)
+    if done or optioned:
+        ctx.cache.clear()
+    ctx.renamed_fields = done
+    ctx.option_shaped_enums = optioned
+    return done
+
+
 def canonicalise(ctx):
     """Present the functions of this tree under the paths the reviewed tree gives them: (1) the function filling each role gets the
     role's reference path (a renamed or moved helper changes nothing for the rules); (2) a function the reference does not know whose
     signature equals that of exactly one reference function that is gone is taken to be that function, renamed or moved."""
+    canonicalise_fields(ctx)
     ref = _reference()
     mapping = {}
     taken = {}
